@@ -721,7 +721,11 @@ func runC15(r *core.Run) {
 	ws.Merge()
 	flamego.SetEnv(orig)
 	for _, k := range []string{"environment-switched-after-assembly", "process-environment-variable-set-after-start", "kind:string", "kind:error", "kind:runtime", "kind:struct", "kind:int", "kind:abort", "kind:dep", "kind:nilerr", "kind:neterr-epipe", "kind:neterr-reset", "kind:slice", "kind:map", "kind:structslice", "kind:sliceerr", "kind:bad-status-writeheader", "kind:bad-status-return", "kind:before-function-panics", "kind:long-cjk", "kind:line-directive", "kind:invoke-non-function", "kind:invoke-nil", "kind:apply-non-struct", "kind:urlpath-unknown-name", "kind:marshal-json-panics", "kind:marshal-xml-panics", "method:HEAD", "deep-stack", "second-recovery-nearer-the-panic", "request-context-cancelled-while-unwinding", "buffering-writer-in-front-of-recovery", "phase:before", "phase:after-header", "phase:after-body", "where:route", "where:group", "where:action", "where:notfound", "depth:flat", "depth:nested-next", "follow-up-requests"} {
-		r.GateCounter(k, 100)
+		min := int64(100)
+		if k == "process-environment-variable-set-after-start" {
+			min = 40 // expected ~130 per quick run: keep the gate far below what any seed yields
+		}
+		r.GateCounter(k, min)
 	}
 	r.Gate("distinct_nontrivial", r.NonTrivialCount(), 1000)
 }
